@@ -411,11 +411,8 @@ struct Exec
 			double err = std::fabs(r.value - ex);
 			double tol = 1e-9 * std::fabs(ex) + 1e-300;
 			ctx.metric_max(M_CONST_ERR, err / tol);
-			// Vegas refines its grid on sampling noise even for a constant, so iterations 2..5 carry a statistical error that the
-			// (finite) weight of the exact first iteration does not always suppress to rounding level: recorded known finding,
-			// kept apart from any other inexactness by its own class (Vegas only, relative error below 1e-5).
 			if(!(err <= tol))
-				ctx.violate((c.method == 1 && err <= 1e-5 * std::fabs(ex)) ? "C14:constant-exactness:vegas-statistical-residue" : "C14:constant-exactness", fmt("constant %.17g over volume %.17Lg: got %.17g, expected %.17g; %s", F.scale, F.volume, r.value, ex, describe(c).c_str()));
+				ctx.violate("C14:constant-exactness", fmt("constant %.17g over volume %.17Lg: got %.17g, expected %.17g; %s", F.scale, F.volume, r.value, ex, describe(c).c_str()));
 		}
 		else if(!std::isfinite(r.value))
 			ctx.violate("C14:non-finite", fmt("result %g; %s", r.value, describe(c).c_str()));
